@@ -251,9 +251,8 @@ let (mut g, mut e) = (got.clone(), exp.clone());
                 if diff * 1_000_000_000_000_000 > exp {
                     return Err(format!("get_num_cells({}) = {}, exact count {}", r, got, exp));
                 }
-            } else if r < 0 && got != 0 {
-                return Err(format!("get_num_cells({}) = {}", r, got));
             }
+            // what is reported for resolutions outside 0..29 is not part of C04 (only that the call returns: guard)
             Ok(())
         }
         "get_num_children" => {
@@ -714,24 +713,37 @@ let (mut g, mut e) = (got.clone(), exp.clone());
                 Ok(s) => s,
                 Err(_) => return Ok(()),
             };
+            // exactly what C05 says about parsing: never panics (guard); the empty string and digit strings wider than
+            // 64 bits give an error, not a truncated value; a canonical string (the format of some value) parses to that
+            // value; and an Ok for a plain digit string is the value of those digits.  Whether signs, prefixes, upper
+            // case or other characters are accepted is not part of the property.
             let got = guard(|| a5::hex_to_u64(&s))?;
-            let digits = s.strip_prefix('+').unwrap_or(&s);
-            let all_hex = !digits.is_empty() && digits.chars().all(|c| c.is_ascii_hexdigit());
-            let sig = digits.trim_start_matches('0');
+            let all_hex = !s.is_empty() && s.chars().all(|c| c.is_ascii_hexdigit());
+            let sig = s.trim_start_matches('0');
             let fits = sig.len() <= 16;
+            let canonical_form = all_hex && fits && (s == "0" || !s.starts_with('0')) && !s.chars().any(|c| c.is_ascii_uppercase());
+            let value = || {
+                let mut e: u64 = 0;
+                for c in sig.chars() {
+                    e = (e << 4) | c.to_digit(16).unwrap() as u64;
+                }
+                e
+            };
             match got {
                 Ok(v) => {
-                    if !all_hex || !fits {
-                        return Err(format!("hex_to_u64({:?}) = Ok({})", s, v));
+                    if s.is_empty() {
+                        return Err(format!("hex_to_u64(\"\") = Ok({})", v));
                     }
-                    let mut e: u64 = 0;
-                    for c in sig.chars() {
-                        e = (e << 4) | c.to_digit(16).unwrap() as u64;
+                    if all_hex && !fits {
+                        return Err(format!("hex_to_u64({:?}) = Ok({}) for a digit string wider than 64 bits", s, v));
                     }
-                    if e != v { Err(format!("hex_to_u64({:?}) = {} expected {}", s, v, e)) } else { Ok(()) }
+                    if all_hex && value() != v {
+                        return Err(format!("hex_to_u64({:?}) = {} expected {}", s, v, value()));
+                    }
+                    Ok(())
                 }
                 Err(_) => {
-                    if all_hex && fits { Err(format!("hex_to_u64({:?}) = Err for a valid hex string", s)) } else { Ok(()) }
+                    if canonical_form { Err(format!("hex_to_u64({:?}) = Err for the canonical form of {}", s, value())) } else { Ok(()) }
                 }
             }
         }
@@ -804,10 +816,11 @@ let (mut g, mut e) = (got.clone(), exp.clone());
         "cell_area" => {
             let r = pi32(&a[0]);
             let got = guard(|| a5::cell_area(r))?;
-            if !got.is_finite() || got <= 0.0 {
-                return Err(format!("cell_area({}) = {}", r, got));
-            }
+            // outside 0..29 the property only asks that the call returns (guard above)
             if (0..=29).contains(&r) {
+                if !got.is_finite() || got <= 0.0 {
+                    return Err(format!("cell_area({}) = {}", r, got));
+                }
                 let n = fanout(-1, r) as f64;
                 let q = 510065624779439.1_f64 / n;
                 if ((got - q) / q).abs() > 1e-12 {
@@ -1361,8 +1374,12 @@ pub fn generate(op: &str, rng: &mut Rng, budget: u64, f: &mut dyn FnMut(Vec<Stri
             }
         }
         "hex_parse" => {
-            let alphabet: &[u8] = b"0123456789abcdefABCDEFgG+-_ x\xc3\xa9";
-            let fixed = ["", "0", "+", "-1", "+f", "ffffffffffffffff", "10000000000000000", "00000000000000000001", "fffffffffffffffff", "0x10", " 1", "1 ", "\u{e9}", "+-1"];
+            let alphabet: Vec<char> = "0123456789abcdefABCDEFgG+-_ x\u{e9}\u{20ac}\u{1f600}".chars().collect();
+            let fixed = [
+                "", "0", "+", "-1", "+f", "ffffffffffffffff", "10000000000000000", "00000000000000000001", "fffffffffffffffff", "0x10", " 1", "1 ",
+                "\u{e9}", "+-1", "\u{20ac}\u{20ac}\u{20ac}", "1\u{e9}2345678", "12345678\u{e9}", "\u{e9}12345678", "\u{e9}\u{e9}\u{e9}\u{e9}\u{e9}\u{e9}\u{e9}\u{e9}\u{e9}",
+                "1234567\u{1f600}", "\u{1f600}12345678", "123\u{20ac}45678901", "ffffffff\u{e9}ffffffff", "1+2345678", "+12345678", "100000000", "fffffffff",
+            ];
             for s in fixed {
                 let hexs: String = s.bytes().map(|b| format!("{:02x}", b)).collect();
                 if !f(vec![hexs]) {
@@ -1370,8 +1387,22 @@ pub fn generate(op: &str, rng: &mut Rng, budget: u64, f: &mut dyn FnMut(Vec<Stri
                 }
             }
             for _ in 0..budget {
-                let n = rng.below(20) as usize;
-                let hexs: String = (0..n).map(|_| format!("{:02x}", alphabet[rng.below(alphabet.len() as u64) as usize])).collect();
+                let n = rng.below(22) as usize;
+                let st: String = (0..n).map(|_| alphabet[rng.below(alphabet.len() as u64) as usize]).collect();
+                let hexs: String = st.bytes().map(|b| format!("{:02x}", b)).collect();
+                if !f(vec![hexs]) {
+                    return;
+                }
+            }
+            // mostly digits with ONE foreign character at a random place (byte-offset arithmetic on such strings is where
+            // hand-written parsers panic)
+            for _ in 0..budget / 2 {
+                let n = 1 + rng.below(20) as usize;
+                let at = rng.below(n as u64) as usize;
+                let st: String = (0..n)
+                    .map(|k| if k == at { alphabet[22 + rng.below((alphabet.len() - 22) as u64) as usize] } else { alphabet[rng.below(16) as usize] })
+                    .collect();
+                let hexs: String = st.bytes().map(|b| format!("{:02x}", b)).collect();
                 if !f(vec![hexs]) {
                     return;
                 }
